@@ -1,14 +1,18 @@
 -------------------------- MODULE Scen_HierConfig --------------------------
-(* Scenario generator for C19: one behaviour per configuration tree of the lattice of HierConfig *)
-(* (every setting of the chain top / a / a.a / a.a.a and of one sibling per level absent, v1, v2  *)
-(* or written down but empty), followed by a lookup of every path of up to MaxPathLen components. *)
+(* Scenario generators for C19.                                                                   *)
+(* SSpec: one behaviour per configuration tree of the lattice of HierConfig (every setting of the *)
+(* chain top / a / a.a / a.a.a and of one sibling per level absent, v1, v2 or written down but    *)
+(* empty), followed by a lookup of every path of up to MaxPathLen components (exhaustive).        *)
+(* HSpec: configuration histories of one process - a tree, lookups, a change, the same lookups,   *)
+(* ... (simulation mode, seeded).                                                                 *)
 (* The kind (which util function) and the concrete names and values are chosen by the driver.     *)
 EXTENDS HierConfig, Json, SequencesExt
 
-VARIABLE hist
-svars == <<vars, hist>>
+VARIABLES hist,     \* the behaviour so far, as the driver gets it
+          shape     \* histories only: what is left of the history's shape
+svars == <<vars, hist, shape>>
 
-SInit == Init /\ hist = <<>>
+SInit == Init /\ hist = <<>> /\ shape = <<>>
 
 TreeJson(t) == LET d == SetToSeq(DOMAIN t) IN [i \in DOMAIN d |-> [p |-> d[i], v |-> t[d[i]]]]
 LookupsJson == LET ps == SetToSeq(Paths) IN [i \in DOMAIN ps |-> [ev |-> "Lookup", path |-> ps[i]]]
@@ -18,8 +22,70 @@ SNext ==
     /\ \E t \in Trees :
           /\ Configure("any", t, Default)
           /\ hist' = <<[ev |-> "Reset", tree |-> TreeJson(t), dflt |-> Default]>> \o LookupsJson
+          /\ UNCHANGED shape
 
 SSpec == SInit /\ [][SNext]_svars
 
 Emit == (hist # <<>>) => PrintT(ToJson(hist))
+
+-----------------------------------------------------------------------------
+(* Configuration HISTORIES of one process: a tree of the lattice is loaded and every path looked  *)
+(* up; then the configuration changes and the same paths are looked up again, as often as the     *)
+(* history's shape says.  A change is an edit of one point -                                      *)
+(*   (a) a point below a point that has a value gets a value (something more specific appears),   *)
+(*   (b) a point that has a value loses it (removed, or written down as empty),                    *)
+(*   (c) the value of a point changes,                                                             *)
+(* or (d) a replacement: a completely new tree over the same points.  The path alphabet is the    *)
+(* same in every configuration of a history, so every lookup is repeated under every tree.        *)
+Classes == {"a", "b", "c", "d"}
+HistShapes == {Append(x, "end") : x \in {<<c>> : c \in Classes} \cup {<<c1, c2>> : c1, c2 \in Classes}
+                                      \cup {<<c1, c2, c3>> : c1, c2, c3 \in Classes}}
+
+\* the paths looked up in histories: the top level, and every point of the lattice and below one
+HistPaths == {p \in Paths : p = <<>> \/ Parent(p) \in Nodes}
+HistLookupsJson == LET ps == SetToSeq(HistPaths) IN [i \in DOMAIN ps |-> [ev |-> "Lookup", path |-> ps[i]]]
+
+HInit ==
+    /\ kind = "any"
+    /\ tree \in Trees
+    /\ dflt = Default
+    /\ last = NoReply
+    /\ shape = RandomElement(HistShapes)      \* one shape per initial tree, drawn with TLC's seed
+    /\ hist = <<[ev |-> "Reset", tree |-> TreeJson(tree), dflt |-> Default]>> \o HistLookupsJson
+
+HasValueAbove(q) == \E n \in 0..(Len(q) - 1) : HasValue(tree, Prefix(q, n))
+
+EditA == \E q \in Nodes, v \in Values :
+            /\ ~HasValue(tree, q) /\ HasValueAbove(q)
+            /\ SetAt(q, v)
+            /\ hist' = hist \o <<[ev |-> "SetAt", path |-> q, v |-> v, class |-> "a"]>> \o HistLookupsJson
+EditB == \E q \in Nodes :
+            /\ HasValue(tree, q)
+            /\ \/ /\ Unset(q)
+                  /\ hist' = hist \o <<[ev |-> "Unset", path |-> q, class |-> "b"]>> \o HistLookupsJson
+               \/ /\ WithEmpty
+                  /\ SetAt(q, EmptyVal)
+                  /\ hist' = hist \o <<[ev |-> "SetAt", path |-> q, v |-> EmptyVal, class |-> "b"]>> \o HistLookupsJson
+EditC == \E q \in Nodes, v \in Values :
+            /\ HasValue(tree, q) /\ tree[q] # v
+            /\ SetAt(q, v)
+            /\ hist' = hist \o <<[ev |-> "SetAt", path |-> q, v |-> v, class |-> "c"]>> \o HistLookupsJson
+\* (simulation mode evaluates the invariants on every successor: one random tree, not all of them)
+ReplaceD == \E t \in {RandomElement(Trees \ {tree})} :
+            /\ Reconfigure(t, Default)
+            /\ hist' = hist \o <<[ev |-> "Reconfigure", tree |-> TreeJson(t), dflt |-> Default, class |-> "d"]>>
+                             \o HistLookupsJson
+
+HNext ==
+    /\ shape # <<>>
+    /\ shape' = Tail(shape)
+    /\ \/ Head(shape) = "a" /\ EditA
+       \/ Head(shape) = "b" /\ EditB
+       \/ Head(shape) = "c" /\ EditC
+       \/ Head(shape) = "d" /\ ReplaceD
+       \/ Head(shape) = "end" /\ UNCHANGED <<vars, hist>>      \* the history is complete: printed once
+
+HSpec == HInit /\ [][HNext]_svars
+
+HEmit == (shape = <<>>) => PrintT(ToJson(hist))
 =============================================================================
